@@ -57,6 +57,21 @@ def repo_frame_sig(exc):
     return "%s@%s:%s" % (type(exc).__name__, rel, inner.name)
 
 
+def blame(exc):
+    """who raised?  Walk the traceback from the innermost frame outwards, skipping library frames
+    (site-packages, the standard library): 'repo' if the first remaining frame is in the repository,
+    'harness' if it is in /verif (my own code, e.g. an oracle or a callback), else 'unknown'."""
+    repo = os.path.abspath(REPO) + os.sep
+    verif = os.path.abspath(VERIF) + os.sep
+    for fr in reversed(traceback.extract_tb(exc.__traceback__)):
+        fn = os.path.abspath(fr.filename)
+        if fn.startswith(repo):
+            return "repo"
+        if fn.startswith(verif):
+            return "harness"
+    return "unknown"
+
+
 class Stats:
     """Mergeable per-process statistics."""
 
@@ -324,7 +339,19 @@ def hyp_search(stats, strategy, body, *, seed, max_examples, check, known=(), ro
         @given(strategy)
         def prop(case):
             try:
-                body(case)
+                try:
+                    body(case)
+                except Failure:
+                    raise
+                except (KeyboardInterrupt, SystemExit, MemoryError):
+                    raise
+                except Exception as e:
+                    # an exception that the code under test raised and the check did not anticipate is a
+                    # failure of the code under test, not of the harness; my own exceptions stay exit 2
+                    if blame(e) != "repo":
+                        raise
+                    raise Failure("exception|" + repo_frame_sig(e),
+                                  observed="%s: %s" % (type(e).__name__, str(e)[:160]))
             except Failure as f:
                 if f.sig in suppressed:
                     stats.fail(f, case, check)
